@@ -402,6 +402,9 @@ func (e *Engine) genFunction(fn *ssa.Function) (fc *fnCtx, err error) {
 				env.vars[k] = v
 			}
 		}
+		for _, pd := range fc.c.PostDefs {
+			fc.sc.assume(implies(rr.st.reach, env.evalBool(pd.Expr, pd.Src)))
+		}
 		for i, en := range fc.c.Ensures {
 			label := en.Label
 			if label == "" {
